@@ -87,6 +87,28 @@ def focus_frame(f: FuncInfo, recv: str, res: RuleResult) -> int:
                                  f'foreign focus', CFG.fmt_path(p)))
             res.samples.append({'rule': 'R01.1', 'function': f.key, 'attribute': target,
                                 'write': w.text()[:70]})
+    # tuple save / tuple restore must list the attributes in the same order
+    saves_t: dict[str, list[str]] = {}
+    for n in cfg.nodes:
+        if n.kind == 'stmt' and isinstance(n.ast, ast.Assign) and len(n.ast.targets) == 1 \
+                and isinstance(n.ast.targets[0], ast.Name) \
+                and isinstance(n.ast.value, ast.Tuple):
+            elts = [dotted(e) for e in n.ast.value.elts]
+            if elts and all(e.startswith(recv + '.') for e in elts):
+                saves_t[n.ast.targets[0].id] = elts
+    for n in cfg.nodes:
+        if n.kind == 'stmt' and isinstance(n.ast, ast.Assign) and len(n.ast.targets) == 1 \
+                and isinstance(n.ast.targets[0], ast.Tuple) \
+                and isinstance(n.ast.value, ast.Name) and n.ast.value.id in saves_t:
+            tg = [dotted(e) for e in n.ast.targets[0].elts]
+            if tg == saves_t[n.ast.value.id]:
+                res.ok()
+            else:
+                res.fail(finding('R01.1', f, n.ast, f'restore order of {n.ast.value.id}',
+                                 f'`{stmt_text(n.ast)[:70]}` unpacks the saved focus in a '
+                                 f'different order than it was saved '
+                                 f'({", ".join(saves_t[n.ast.value.id])}): attributes are '
+                                 f'restored with each other\'s values'))
     return written
 
 
